@@ -41,6 +41,12 @@ pub fn check_model<T: Sc>(rng: &mut Rng, spec: &CodedSpec, nalpha: usize) -> (u6
             if let Err(e) = model.set_params(DVector::from_vec(alpha.clone())) {
                 return (obs, nontrivial, Some(format!("set_params rejected a vector of the right length: {e}")));
             }
+            if step % 2 == 0 {
+                // a vector of the wrong length is not "set on the model": the current parameter vector,
+                // from which all columns below are taken, stays the one just applied
+                let l = if rng.chance(0.5) { np + rng.int(1, 3) } else { np - 1 };
+                let _ = model.set_params(DVector::from_vec((0..l).map(|_| T::of(rng.range(5.0, 9.0))).collect()));
+            }
         }
         obs += 1;
         let back = model.params();
@@ -141,7 +147,7 @@ pub fn sanitizer_workload(seed: u64, cases: u64, nmax: usize, _len: usize) -> (u
 }
 
 pub fn run(ctx: &Ctx) {
-    ctx.rule("generated builder specifications: model parameter lists of length 1..10 in random order, 1..5 functions of arity 1..10 over random ordered subsets (the last one covering unused parameters), derivatives supplied in random order, up to two invariant functions at random positions, N in 1..9, f32/f64, 4 parameter vectors with pairwise distinct entries per model; every 40th model is wide: 11..257 model parameters (sizes around 32/64/128/256), each used by at least one function of arity 1..10, some shared. Functions and derivatives are asymmetric position codes (sum_i (i+2)·sin((i+1)·a_i + x + j)); the oracle calls the same code with the arguments it routes by name and compares bitwise; columns of functions not depending on parameter k must be exactly zero; params() must return what was set. non-trivial = at least two model parameters and a function of arity >= 2; distinct = specification hash");
+    ctx.rule("generated builder specifications: model parameter lists of length 1..10 in random order, 1..5 functions of arity 1..10 over random ordered subsets (the last one covering unused parameters), derivatives supplied in random order, up to two invariant functions at random positions, N in 1..9, f32/f64, 4 parameter vectors with pairwise distinct entries per model; every 40th model is wide: 11..257 model parameters (sizes around 32/64/128/256), each used by at least one function of arity 1..10, some shared. Functions and derivatives are asymmetric position codes (sum_i (i+2)·sin((i+1)·a_i + x + j)); the oracle calls the same code with the arguments it routes by name and compares bitwise; columns of functions not depending on parameter k must be exactly zero; params() must return what was set (also after an intervening set_params with a vector of the wrong length, which is not 'set'). non-trivial = at least two model parameters and a function of arity >= 2; distinct = specification hash");
     ctx.assume("bitwise comparison is sound: the same closure evaluated on the same arguments on the same machine");
     let t = ctx.tier;
     ctx.run_cases("routing", t.pick(30000, 600000), t.pick(15.0, 900.0), case);
